@@ -104,6 +104,22 @@ BucketPages(f, h) == LET root == U64(f, h)
                          RECURSIVE cat(_)
                          cat(S) == IF S = {} THEN <<>> ELSE LET j == CHOOSE x \in S : TRUE IN BucketPages(f, items[j].voff) \o cat(S \ {j})
                      IN own \o cat(subs)
+\* the page ids at which a tree page STARTS (PagesOf without the overflow continuation pages)
+RECURSIVE StartsOf(_, _)
+StartsOf(f, id) == LET o == PgOff(f, id) IN
+                   IF PFlags(f, o) = 2 THEN <<id>>
+                   ELSE LET RECURSIVE cat(_)
+                            cat(i) == IF i >= PCount(f, o) THEN <<>> ELSE StartsOf(f, BranchElem(f, o, i).pgid) \o cat(i + 1)
+                        IN <<id>> \o cat(0)
+RECURSIVE BucketStarts(_, _)
+BucketStarts(f, h) == LET root == U64(f, h)
+                          items == IF root = 0 THEN LeafItems(f, h + 16) ELSE LeafItems(f, PgOff(f, root))
+                          own == IF root = 0 THEN <<>> ELSE StartsOf(f, root)
+                          subs == {j \in 1..Len(items) : items[j].flags = 1}
+                          RECURSIVE cat(_)
+                          cat(S) == IF S = {} THEN <<>> ELSE LET j == CHOOSE x \in S : TRUE IN BucketStarts(f, items[j].voff) \o cat(S \ {j})
+                      IN own \o cat(subs)
+TypeName(flags) == CASE flags = 1 -> "branch" [] flags = 2 -> "leaf" [] flags = 4 -> "meta" [] flags = 16 -> "freelist" [] OTHER -> "unknown"
 \* free ids listed by the freelist page at page id fl (with the 0xFFFF count convention)
 FreelistIds(f, fl) == LET o == PgOff(f, fl)
                           c == PCount(f, o)
@@ -121,9 +137,22 @@ Decode(f) ==
                h == a * f.ps + 16 + 16                 \* root bucket header inside the active meta
                pages == BucketPages(f, h)
            IN [ok |-> TRUE, active |-> a, txid |-> m.txid, hwm |-> m.hwm, freelist |-> m.freelist,
-               root |-> Bucket(f, h), pages |-> pages,
+               root |-> Bucket(f, h), pages |-> pages, starts |-> BucketStarts(f, h),
                free |-> IF m.freelist = -1 THEN <<>> ELSE FreelistIds(f, m.freelist),
                flrun |-> IF m.freelist = -1 THEN {} ELSE FreelistRun(f, m.freelist)]
+
+\* Tx.Page(id) (tx.go:691-718), the page-inspection API (also `bbolt pages`): nothing beyond the high-water mark;
+\* "free" for every id the free list holds (the listed ids, or - for a file without a freelist page - everything
+\* unreachable); otherwise type, element count and overflow as the header of that page says.  For the
+\* continuation pages of an overflowing page the API reads whatever bytes are there: not specified.
+PageInfoOK(f, d, q) ==
+   LET freeSet == IF d.freelist = -1 THEN (2..(d.hwm - 1)) \ {d.pages[i] : i \in 1..Len(d.pages)} ELSE {d.free[i] : i \in 1..Len(d.free)}
+       starts == {0, 1} \cup {d.starts[i] : i \in 1..Len(d.starts)} \cup (IF d.freelist = -1 THEN {} ELSE {d.freelist})
+       o == PgOff(f, q.id)
+   IN IF q.id >= d.hwm THEN q.type = "none"
+      ELSE IF q.id \in freeSet THEN q.type = "free"
+      ELSE IF q.id \in starts THEN q.type = TypeName(PFlags(f, o)) /\ q.count = PCount(f, o) /\ q.ov = POverflow(f, o)
+      ELSE q.type # "none"
 
 (***************************************************************************)
 (* The accounting predicate (C07 / C19): g is a page graph                 *)
